@@ -89,7 +89,21 @@ def evaluate(mod, spec) -> Result:
         res = mod.check_case(spec)
     except (KeyboardInterrupt, SystemExit):
         raise
+    except Exception as exc:  # noqa: BLE001
+        if type(exc).__name__ == "LibraryRefused":
+            res = Result()
+            res.label(f"discarded: {exc}")
+            return res
+        return _escaped(mod, spec, exc)
     except BaseException as exc:  # noqa: BLE001
+        return _escaped(mod, spec, exc)
+    if not isinstance(res, Result):
+        raise HarnessError("check_case did not return a Result")
+    return res
+
+
+def _escaped(mod, spec, exc):
+    if True:
         owner = _classify_exception(exc)
         text = "".join(traceback.format_exception(type(exc), exc, exc.__traceback__))
         if owner == "repo":
@@ -101,9 +115,6 @@ def evaluate(mod, spec) -> Result:
             res.label("unexpected_exception")
             return res
         raise HarnessError(f"harness error on spec {json.dumps(spec, default=str)[:2000]}\n{text}")
-    if not isinstance(res, Result):
-        raise HarnessError("check_case did not return a Result")
-    return res
 
 
 # --------------------------------------------------------------------------- known findings
